@@ -45,7 +45,25 @@ def define(decl, facts_fn, aux=False):
     return decl
 
 
+_APPS_CACHE: dict = {}
+
+
 def _apps(terms, names):
+    """Applications of the defined spec functions inside the given terms (cached per top-level term; the cache entry
+    keeps the term alive because z3 recycles the ids of freed terms)."""
+    out = {}
+    for t in terms:
+        k = (t.get_id(), len(names))
+        hit = _APPS_CACHE.get(k)
+        if hit is None:
+            hit = (t, _apps1([t], names))
+            _APPS_CACHE[k] = hit
+        for a in hit[1]:
+            out[a.get_id()] = a
+    return list(out.values())
+
+
+def _apps1(terms, names):
     seen, out, stack = set(), {}, list(terms)
     while stack:
         x = stack.pop()
@@ -137,6 +155,39 @@ def _conjuncts(terms):
     return out
 
 
+# A path on which the executor had to abstract (a symbolic loop cut without invariant, a comprehension it could not follow, a
+# contract clause that did not fit the shape of the state) carries this marker in its path condition: a `sat` answer for a
+# VC of such a path is not a counterexample (solve.SAT_UNTRUSTED -> `unknown`; the native replayer then decides).
+ABSTRACTED = z3.Bool("c02!path-abstracted")
+
+
+def _untrusted(pc, goal) -> bool:
+    for p_ in pc:
+        if p_.eq(ABSTRACTED):
+            return True
+    return False
+
+
+def register_untrusted():
+    from pyvc import solve
+    if _untrusted not in solve.SAT_UNTRUSTED:
+        solve.SAT_UNTRUSTED.append(_untrusted)
+
+
+def robust(fn):
+    """Contract clause that does not fit the state (renamed / restructured code): not an engine error, not a refutation --
+    the path is marked abstracted and the clause is left undecided for the replayer."""
+    def wrapped(c):
+        try:
+            return fn(c)
+        except (AttributeError, KeyError, TypeError, IndexError, Unsupported):
+            st = getattr(c, "st", None)
+            if st is not None:
+                st.assume(ABSTRACTED)
+            return z3.BoolVal(False)
+    return wrapped
+
+
 class Conj(list):
     """Labelled conjunction [(label, Bool)]: assumed as a whole, proved conjunct by conjunct."""
 
@@ -212,7 +263,7 @@ def p_hnode():
 
 def h_children(st, n):
     st.assume(H_NCH(n) >= 0)
-    return VSeq(H_NCH(n), lambda i, n=n: hnode(H_CH(n, i)), "HNode")
+    return VSeq(H_NCH(n), lambda i, n=n: hnode(H_CH(n, i)), "HNode", tag=("hn.children", n))
 
 
 # ------------------------------------------------------------ rows of strings --
@@ -231,7 +282,7 @@ def p_strrow():
 
 def row_seq(st, r):
     st.assume(RLEN(r) >= 0)
-    return VSeq(RLEN(r), lambda j, r=r: VStr(RCELL(r, j)), "str")
+    return VSeq(RLEN(r), lambda j, r=r: VStr(RCELL(r, j)), "str", tag=("row.cells", r))
 
 
 def p_rowseq(at):
@@ -310,6 +361,9 @@ class C02Executor(Executor):
         return super()._b(x)
 
     def add_vc(self, kind, label, pc, goal, note="", loc=""):
+        role = getattr(self.contract, "oid_qual", None) if self.contract is not None else None
+        if role and "::" in self.oid_prefix and not self.oid_prefix.endswith("::" + role):
+            self.oid_prefix = self.oid_prefix.rsplit("::", 1)[0] + "::" + role        # ids name the role, not the current identifier
         if isinstance(goal, Conj):
             for (sub, t) in goal:
                 self.add_vc(kind, f"{label}.{sub}" if label else sub, pc, t, note, loc)
@@ -360,7 +414,68 @@ class C02Executor(Executor):
     def b_enumerate(self, st, args, kwargs, node):
         if args and isinstance(args[0], VExt) and args[0].sort == "StrRow":
             args = [row_seq(st, args[0].t)] + list(args[1:])
-        return super().b_enumerate(st, args, kwargs, node)
+        res = super().b_enumerate(st, args, kwargs, node)
+        if args and isinstance(args[0], VSeq) and args[0].tag is not None:
+            for (_s, v) in res:
+                if isinstance(v, VSeq) and v.tag is None:
+                    v.tag = ("enumerate",) + tuple(args[0].tag)
+        return res
+
+    _comp_counter = 0
+
+    def _comp_as_loop(self, n, st):
+        """[elt for x in seq if c] over a sequence of symbolic length == the loop `tmp = []; for x in seq: if c: tmp.append(elt)`
+        (same evaluation order, same exceptions): executed as that loop, so that a loop invariant identified by role applies
+        to it exactly as to the written-out loop.  -> [(state, list value)] or None when the shape is not a single generator."""
+        if len(n.generators) != 1 or n.generators[0].is_async:
+            return None
+        g = n.generators[0]
+        C02Executor._comp_counter += 1
+        tmp = f"_c02_comp_{C02Executor._comp_counter}"
+        call = ast.Expr(ast.Call(ast.Attribute(ast.Name(tmp, ast.Load()), "append", ast.Load()), [n.elt], []))
+        body = [call]
+        for cond in reversed(g.ifs):
+            body = [ast.If(cond, body, [])]
+        loop = ast.For(g.target, g.iter, body, [])
+        for x in ast.walk(loop):
+            ast.copy_location(x, n)
+        ast.fix_missing_locations(loop)
+        st.bind(tmp, self.new_list(st, []))
+        out = []
+        for o in self.exec_stmt(loop, st):
+            if o.kind == "fall":
+                out.append((o.st, o.st.lookup(tmp)))
+            elif o.kind == "raise":
+                self.raise_in(o.st, o.val)
+            else:
+                raise Unsupported(f"{self.loc(n)} control flow escaping a comprehension")
+        return out
+
+    def e_ListComp(self, n, st):
+        try:
+            return super().e_ListComp(n, st)
+        except Unsupported as e:
+            if "symbolic iterable" not in str(e):
+                raise
+            r = self._comp_as_loop(n, st)
+            if r is None:
+                raise
+            return r
+
+    def e_List(self, n, st):
+        if any(isinstance(e, ast.Starred) for e in n.elts):
+            # [*a, x, *b] with parts of symbolic length: built by successive extend / append
+            new = self.new_list(st, [])
+            cur = [st]
+            for e in n.elts:
+                nxt = []
+                for s1 in cur:
+                    for (s2, v) in self.ev(e.value if isinstance(e, ast.Starred) else e, s1):
+                        self.list_method(s2, new, "extend" if isinstance(e, ast.Starred) else "append", [v], {}, n)
+                        nxt.append(s2)
+                cur = nxt
+            return [(s1, new) for s1 in cur]
+        return super().e_List(n, st)
 
     def e_GeneratorExp(self, n, st):
         try:
@@ -368,8 +483,15 @@ class C02Executor(Executor):
         except Unsupported as e:
             if "symbolic iterable" not in str(e):
                 raise
+            try:
+                r = self._comp_as_loop(n, st)
+            except Unsupported:
+                r = None
+            if r is not None:
+                return r
             # a generator over a sequence of symbolic length whose value is only consumed by an aggregate (max/min/sum):
             # nothing is known about the aggregate (sound over-approximation; any use of it is then unconstrained)
+            st.assume(ABSTRACTED)
             self.exc_any(st.fork(), f"{self.loc(n)} generator over a symbolic sequence")
             return [(st, VUnk("genexp"))]
 
@@ -384,17 +506,81 @@ class C02Executor(Executor):
             return out
         return super().b_int(st, args, kwargs, node)
 
+    def _minmax(self, st, args, kwargs, node, is_min):
+        items = args if len(args) > 1 else self.concrete_items(st, args[0])
+        if items is not None and any(isinstance(x, VUnk) for x in items):
+            st.assume(ABSTRACTED)
+            return self.havoc_call(st, "min/max of unknown", [], node)
+        return super()._minmax(st, args, kwargs, node, is_min)
+
     def b_set(self, st, args, kwargs, node):
         if not args:
             return [(st, VExt("StrSet", EMPTYSET))]
         return self.havoc_call(st, "set", args, node)
+
+    def dataclass_fields(self, name):
+        r = super().dataclass_fields(name)
+        if r is not None:
+            return r
+        cls = self.module.classes.get(name)
+        if cls is not None and any(ast.unparse(b).split(".")[-1] == "NamedTuple" for b in cls.bases):
+            return [(b.target.id, b.value) for b in cls.body if isinstance(b, ast.AnnAssign) and isinstance(b.target, ast.Name)]
+        return None
 
     def construct(self, st, t, args, kwargs, node):
         if t.name == "set" and not args:
             return [(st, VExt("StrSet", EMPTYSET))]
         return super().construct(st, t, args, kwargs, node)
 
+    @staticmethod
+    def _fill(fmt, pieces, pattern):
+        """fmt with every occurrence of a plain placeholder replaced by the next piece, or None when fmt has anything else."""
+        import re
+        parts = re.split(pattern, fmt)
+        if len(parts) != len(pieces) + 1 or any("%" in x or "{" in x or "}" in x for x in parts):
+            return None
+        out = []
+        for i, x in enumerate(parts):
+            out.append(lit(x))
+            if i < len(pieces):
+                out.append(pieces[i])
+        return T._concat([y for t in out for y in T._flat(t)])
+
+    def to_str(self, st, v, formatted=False):
+        r = super().to_str(st, v, formatted)
+        if not (isinstance(v, (VStr, VInt)) and not formatted):
+            st.assume(ABSTRACTED)            # an opaque rendering (format spec, repr, unknown value): no counter-model from here on
+        return r
+
+    def str_method(self, st, s_, name, args, kwargs, node):
+        if name == "format" and not kwargs and s_.const() is not None and all(isinstance(a, VStr) for a in args):
+            fmt = s_.const()
+            import re
+            auto = self._fill(fmt, [a.t for a in args], r"\{\}")
+            if auto is None and re.fullmatch(r"(?:[^{}]|\{\d+\})*", fmt):
+                idx = [int(i) for i in re.findall(r"\{(\d+)\}", fmt)]
+                if all(i < len(args) for i in idx):
+                    auto = self._fill(fmt, [args[i].t for i in idx], r"\{\d+\}")
+            if auto is not None:
+                return [(st, VStr(auto))]
+        if name in ("format", "format_map"):
+            st.assume(ABSTRACTED)
+        res = super().str_method(st, s_, name, args, kwargs, node)
+        if name != "join":
+            for (s2, v) in res:
+                # a string method the models do not follow returns a fresh symbol: an abstraction, no counter-models downstream
+                if (isinstance(v, VStr) and z3.is_const(v.t) and v.t.decl().kind() == z3.Z3_OP_UNINTERPRETED and "!" in v.t.decl().name()) or isinstance(v, VUnk):
+                    s2.assume(ABSTRACTED)
+        return res
+
     def binop(self, st, op, a, b, node, inplace=False):
+        if op == "Mod" and isinstance(a, VStr):
+            items = b.items if isinstance(b, VTuple) else [b]
+            if a.const() is not None and all(isinstance(x, VStr) for x in items):
+                r = self._fill(a.const(), [x.t for x in items], r"%s")
+                if r is not None:
+                    return [(st, VStr(r))]
+            st.assume(ABSTRACTED)            # %-formatting the model does not follow: opaque text
         if op == "Mult" and isinstance(a, VStr) and isinstance(b, VInt) and b.const() is None:
             n = ops.int_term(b)
             return [(st, VStr(z3.If(n > 0, T.REP(a.t, n), lit(""))))]
@@ -403,7 +589,14 @@ class C02Executor(Executor):
             if head is not None and len(head) == 1 and b.ekind == "StrRow" and isinstance(head[0], VExt) and head[0].sort == "StrRow":
                 h0, el = head[0], b.elem
                 return [(st, VSeq(z3.simplify(b.length + 1), lambda i: ops.same_shape_ite(i == 0, h0, el(z3.simplify(i - 1))), "StrRow"))]
-        if op == "Add" and inplace and slist_of(st, a) is not None:
+        if op == "Add" and not inplace and isinstance(a, VRef) and isinstance(b, VRef) \
+                and (slist_of(st, a) is not None or slist_of(st, b) is not None):
+            # list + list with at least one side of symbolic length: a new str list
+            new = self.new_list(st, [])
+            for side in (a, b):
+                self.list_method(st, new, "extend", [side], {}, node)
+            return [(st, new)]
+        if op == "Add" and inplace and isinstance(a, VRef) and isinstance(b, VRef) and (slist_of(st, a) is not None or slist_of(st, b) is not None):
             for (s2, _r) in self.list_method(st, a, "extend", [b], {}, node):
                 return [(s2, None)]
         return super().binop(st, op, a, b, node, inplace)
@@ -548,14 +741,23 @@ class C02Executor(Executor):
                 sl.append((r, st.heap[r]))
         # an instance all of whose modelled fields are already unknown has nothing left to havoc (keeps its class, so
         # that method calls on it still resolve to their contracts)
-        opaque = [(r, st.heap[r]) for r in sorted(refs) if r in st.heap and st.heap[r].kind == "obj"
-                  and all(isinstance(x, VUnk) for x in st.heap[r].data.values())]
+        opaque = [(r, st.heap[r]) for r in sorted(refs) if r in st.heap and st.heap[r].kind == "obj" and st.heap[r].data is not None
+                  and (all(isinstance(x, VUnk) for x in st.heap[r].data.values()) or self._immutable_class(st.heap[r].cls))]
         super().havoc_loop_state(st, body, spec, extra_names)
         for r, o in opaque:
             st.heap[r] = o
         for r, o in sl:
             st.heap[r] = o
             self.slist_havoc(st, r)
+
+    def _immutable_class(self, cls):
+        """typing.NamedTuple subclasses (and frozen dataclasses) of the module: instances cannot be mutated by any callee."""
+        node = self.module.classes.get(cls) if cls else None
+        if node is None:
+            return False
+        if any(ast.unparse(b).split(".")[-1] == "NamedTuple" for b in node.bases):
+            return True
+        return any("frozen=True" in ast.unparse(d) for d in node.decorator_list)
 
     def _appended_in(self, body, st, ref):
         for n in body:
@@ -572,13 +774,46 @@ class C02Executor(Executor):
                                 return True
         return False
 
+    # -- loop specifications by role, not by position -----------------------------------------------------
+    _loop_st = None
+    _loop_it = None
+
+    def loop_spec(self, node):
+        """A contract may carry `loop_match(ex, st, node, it) -> LoopSpec | None`: the loop is identified by what it iterates
+        over / what it feeds (semantic roles), so inserting, removing, reordering loops or moving one into a helper that
+        is executed in place does not detach the invariant.  Without it: the engine's positional lookup."""
+        c = self.contract
+        m = getattr(c, "loop_match", None) if c is not None else None
+        if m is not None:
+            try:
+                return m(self, self._loop_st, node, self._loop_it)
+            except (AttributeError, KeyError, TypeError, IndexError):
+                return None
+        return super().loop_spec(node)
+
+    @staticmethod
+    def _specified(spec):
+        return spec is not None and (spec.inv is not None or getattr(spec, "step", None) is not None or spec.unroll is not None)
+
+    def symbolic_for(self, s, st, it):
+        self._loop_st, self._loop_it = st, it
+        if not self._specified(self.loop_spec(s)):
+            st.assume(ABSTRACTED)            # cut with invariant True: what follows is an over-approximation
+        r = super().symbolic_for(s, st, it)
+        self._loop_st, self._loop_it = None, None
+        return r
+
     def s_While(self, s, st):
         """`LoopSpec.step(start_ctx, end_ctx) -> Conj`: a two-state property of ONE iteration started in an arbitrary
         state (everything the body assigns is havocked; no invariant is assumed, none is needed after the loop)."""
         from pyvc.symex import LoopCtx, Outcome
+        self._loop_st, self._loop_it = st, None
         spec = self.loop_spec(s)
         step = getattr(spec, "step", None) if spec is not None else None
         if step is None:
+            if not self._specified(spec):
+                res = self.try_concrete_while(s, st.fork()) if False else None
+                st.assume(ABSTRACTED)
             return super().s_While(s, st)
         label = spec.label or "loop"
         entry = st.fork()
@@ -618,7 +853,11 @@ class C02Executor(Executor):
             # the case-split postcondition (one obligation id per case) is assumed at call sites in its equivalent unsplit form
             import dataclasses
             c = dataclasses.replace(c, ensures=compact)
-        res = super().apply_contract(st, c, args, kwargs, node)
+        self.in_apply = getattr(self, "in_apply", 0) + 1
+        try:
+            res = super().apply_contract(st, c, args, kwargs, node)
+        finally:
+            self.in_apply -= 1
         if not res and not c.raises and not c.may_raise_any:
             raise Unsupported(f"{self.loc(node)} contract of {c.target} leaves no outcome (infeasible post-state)")
         return res
